@@ -19,6 +19,7 @@
 #include <core/sync.h>
 #include <datatypes/msg_queue.h>
 #include <distributed/mpi.h>
+#include <verif_hooks.h>
 
 #include <memory.h>
 #include <stdatomic.h>
@@ -107,6 +108,7 @@ static inline simtime_t gvt_node_reduce(void)
 
 static bool gvt_thread_phase_run(void)
 {
+	VH(VH_GVT_STAGE, NULL, thread_phase, 1);
 	switch(thread_phase) {
 		case thread_phase_A:
 			if(atomic_load_explicit(&c_a, memory_order_relaxed))
@@ -171,6 +173,7 @@ static bool gvt_node_phase_run(void)
 	static _Atomic(rid_t) c_c;
 	static _Atomic(rid_t) c_d;
 
+	VH(VH_GVT_STAGE, NULL, 16 + node_phase, 2);
 	switch(node_phase) {
 		case node_phase_redux_first:
 		case node_phase_redux_second:
@@ -263,6 +266,7 @@ simtime_t gvt_phase_run(void)
 		timer_uint t = timer_new();
 		if(unlikely(global_config.gvt_period < t - gvt_timer &&
 			    !atomic_load_explicit(&gvt_nodes, memory_order_relaxed))) {
+			VH(VH_GVT_INITIATE, NULL, 0, 0);
 			gvt_timer = t;
 			atomic_fetch_add_explicit(&gvt_nodes, n_nodes, memory_order_relaxed);
 			mpi_control_msg_broadcast(MSG_CTRL_GVT_START);
@@ -274,18 +278,23 @@ simtime_t gvt_phase_run(void)
 
 void gvt_msg_drain(void)
 {
+	VH(VH_DRAIN, NULL, 0, 0);
 	while(thread_phase != thread_phase_idle) // flush partial gvt algorithm
 		gvt_phase_run();
 
+	VH(VH_DRAIN, NULL, 1, 0);
 	if(sync_thread_barrier())
 		mpi_node_barrier();
 	sync_thread_barrier();
 
+	VH(VH_DRAIN, NULL, 2, 0);
 	for(int i = 0; i < 2; ++i) { // flush both gvt phases
 		gvt_timer = 0;       // this satisfies the timer condition
 		while(!gvt_phase_run())
 			mpi_remote_msg_drain();
+		VH(VH_DRAIN, NULL, 3, i);
 	}
+	VH(VH_DRAIN, NULL, 4, 0);
 }
 
 /**
